@@ -17,5 +17,11 @@ CHECKS = {
   text="Every pattern up to length 5 (6) against every name up to length 4 over {a,A,*,\\,.,+}, including revisits through the 256-entry regex cache, every filter quadruple of a 7x7x7x8 menu over generated inventories in native and Sphinx representation, and every inv: link spelling of a finite menu rendered through docutils, compared with a reference matcher written from the docstring and a list-comprehension filter.",
   note="Trusted: mcx/models/wildcard.py as the documented semantics; names with line breaks and empty path parts not generated; Sphinx intersphinx path of inv: links covered by the Sphinx system when present in evidence.",
  ),
+ "C18": dict(
+  category="model_checking",
+  technique="bounded exhaustive enumeration of inventory files (entry sequences x versions x header variants) and of ALL read() chunking schedules up to a cut bound, executed on myst_parser.inventory.load; Sphinx's loader and the single-read result as reference models",
+  text="Every inventory of <= 2 (3) lines from a 20-line v2 pool and a 9-line v1 pool (names with spaces, $ shorthand, priorities, duplicates, py:module duplicates, malformed lines), both versions, with/without final newline, is loaded by the real loader and compared entry-by-entry with Sphinx's own loader; every delivery of the bytes of 6 (8) files through read() with <= 2 (3) cut points and every uniform chunk size must give the single-read result; to_sphinx/from_sphinx round trip on every loaded inventory.",
+  note="Trusted: Sphinx 8.2.3 InventoryFile.loads as reference; '' and '-' display names identified; exotic line separators not generated; read() never returns more than requested.",
+ ),
 }
 NOT_APPLICABLE = {}
